@@ -37,7 +37,8 @@ theorem proj_of_dict_attr (fuel : Nat) (st : SStack) (c c1 : Nat) (v : Expr) (ks
   split at hnf
   · cases hnf
   · rename_i h
-    simp only [simp]
+    unfold simp
+    simp only []
     split
     · exact absurd rfl (h _ _ _)
     · exact absurd rfl (h _ _ _)
